@@ -24,6 +24,7 @@ import (
 	"strings"
 	"sync"
 	"testing"
+	"time"
 
 	"github.com/buildbarn/bb-remote-execution/pkg/filesystem/virtual"
 
@@ -257,13 +258,22 @@ func TestCheck(t *testing.T) {
 	}
 
 	// Phase 1: deterministic lock-leak probes.
-	nVFS := r.Pick(320, 6400)
-	parallel(8, nVFS, func(i int) { runVFSProbeCase(r, rc, i) })
-	runSmallObjectProbes(r, rc)
-	runNFSProbes(r, rc)
+	timed(r, "vfs-probe", func() {
+		nVFS := r.Pick(240, 6400)
+		parallel(8, nVFS, func(i int) { runVFSProbeCase(r, rc, i) })
+	})
+	timed(r, "small-object-probes", func() { runSmallObjectProbes(r, rc) })
+	timed(r, "nfs-probe", func() { runNFSProbes(r, rc) })
 
 	// Phase 2: termination under concurrency.
 	runStress(r, rc)
+}
+
+// timed records how long a phase took (reporting only; no verdict depends on it).
+func timed(r *ev.Run, name string, f func()) {
+	t0 := time.Now()
+	f()
+	r.Count("phase_wall_ms "+name, int(time.Since(t0).Milliseconds()))
 }
 
 func replay(r *ev.Run, rc *reach, w witness) {
